@@ -119,6 +119,13 @@ func TestC10FullState(t *testing.T) {
 								if !ok {
 									continue
 								}
+								// both nodes have already served a snapshot to a third node before the other side's gossip arrives
+								// (whatever a node caches for its snapshots must not go stale when it merges)
+								if (lossA+lossB+mode)%2 == 1 || vk.Thorough() {
+									a.st.Distributor().LocalState(false)
+									b.st.Distributor().LocalState(false)
+									desc["snapshot_served_before_remote_changes"] = true
+								}
 								for i, oi := range hb {
 									bn = append(bn, ops[oi].name)
 									msgs := b.do(func() { ops[oi].run(b) })
